@@ -187,6 +187,9 @@ pub struct Graph {
     pub store_empty: bool,
     /// with `clip`: the clip box is a variable one (ClipBox format 2, varIndexBase 0)
     pub clip_var: bool,
+    /// with `var_store`: a hand-shaped ItemVariationStore instead: (region list axis count, region
+    /// count, region-index pattern of the single ItemVariationData: 0 = [0], 1 = [1], 2 = [5], 3 = [0, 1])
+    pub store_shape: Option<(u8, u8, u8)>,
 }
 
 impl Graph {
@@ -200,6 +203,7 @@ impl Graph {
             "var_map": self.var_map.map(|(a, b, c)| vec![a as u32, b as u32, c as u32]),
             "store_empty": self.store_empty,
             "clip_var": self.clip_var,
+            "store_shape": self.store_shape.map(|(a, b, c)| vec![a, b, c]),
         })
     }
     pub fn from_json(v: &Value) -> Option<Graph> {
@@ -212,6 +216,7 @@ impl Graph {
             var_map: v["var_map"].as_array().map(|a| (a[0].as_u64().unwrap_or(0) as u16, a[1].as_u64().unwrap_or(1) as u8, a[2].as_u64().unwrap_or(1) as u8)),
             store_empty: v["store_empty"].as_bool().unwrap_or(false),
             clip_var: v["clip_var"].as_bool().unwrap_or(false),
+            store_shape: v["store_shape"].as_array().map(|a| (a[0].as_u64().unwrap_or(0) as u8, a[1].as_u64().unwrap_or(0) as u8, a[2].as_u64().unwrap_or(0) as u8)),
         })
     }
     pub fn nodes(&self) -> usize {
@@ -392,7 +397,22 @@ pub fn build_colr(g: &Graph) -> Colr {
         )];
         colr.clip_list = Some(ClipList::new(1, clips.len() as u32, clips)).into();
     }
-    if g.var_store {
+    if let (true, Some((axis_count, region_count, pattern))) = (g.var_store, g.store_shape) {
+        use write_fonts::tables::variations::{ItemVariationData, ItemVariationStore, VariationRegionList};
+        let regions: Vec<VariationRegion> = (0..region_count)
+            .map(|r| VariationRegion::new((0..axis_count).map(|_| RegionAxisCoordinates::new(f2(0.0), f2(if r == 0 { 1.0 } else { 0.5 }), f2(1.0))).collect()))
+            .collect();
+        let idx: Vec<u16> = match pattern {
+            0 => vec![0],
+            1 => vec![1],
+            2 => vec![5],
+            _ => vec![0, 1],
+        };
+        let rows = 12usize;
+        let deltas: Vec<u8> = (0..rows * idx.len()).map(|i| (i * 7 % 50) as u8).collect();
+        let store = ItemVariationStore::new(VariationRegionList::new(axis_count as u16, regions), vec![Some(ItemVariationData::new(rows as u16, 0, idx, deltas))]);
+        colr.item_variation_store = Some(store).into();
+    } else if g.var_store {
         if g.store_empty {
             use write_fonts::tables::variations::{ItemVariationData, ItemVariationStore, VariationRegionList};
             let store = ItemVariationStore::new(VariationRegionList::new(1, vec![]), vec![Some(ItemVariationData::new(12, 0, vec![], vec![]))]);
